@@ -226,6 +226,11 @@ func runC25(c *Ctx) {
 			} else {
 				obs, plain = bs.Or(kids...), bs.BloomExpression{ExpressionType: bs.BloomExpressionOr, Children: kids}
 			}
+			for j := range kids {
+				if coqBExpr(&kids[j]) != kc[j] {
+					c.violation("c25-ctor-mutates-args", "And/Or constructor changed the caller's argument slice", map[string]any{"before": kc[j], "after": coqBExpr(&kids[j])})
+				}
+			}
 			term := fmt.Sprintf("CCtorB %s %s %s", coqBool(isAnd), coqList(kc), coqBExpr(&obs))
 			desc := map[string]any{"kind": "ctor-bloom", "and": isAnd, "children": kids, "result": obs}
 			sh.add(c, term, desc)
@@ -247,6 +252,11 @@ func runC25(c *Ctx) {
 			} else {
 				obs, plain = bs.RegexOr(kids...), bs.RegexExpression{ExpressionType: bs.RegexExpressionOr, Children: kids}
 			}
+			for j := range kids {
+				if coqRExpr(&kids[j]) != kc[j] {
+					c.violation("c25-ctor-mutates-args", "RegexAnd/RegexOr constructor changed the caller's argument slice", map[string]any{"before": kc[j], "after": coqRExpr(&kids[j])})
+				}
+			}
 			term := fmt.Sprintf("CCtorR %s %s %s", coqBool(isAnd), coqList(kc), coqRExpr(&obs))
 			sh.add(c, term, map[string]any{"kind": "ctor-regex", "and": isAnd, "children": kids, "result": obs})
 			c.count(props, term, k > 0, nil)
@@ -265,6 +275,11 @@ func runC25(c *Ctx) {
 				obs, plain = bs.PrefilterAnd(kids...), bs.PrefilterExpression{ExpressionType: bs.PrefilterExpressionAnd, Children: kids}
 			} else {
 				obs, plain = bs.PrefilterOr(kids...), bs.PrefilterExpression{ExpressionType: bs.PrefilterExpressionOr, Children: kids}
+			}
+			for j := range kids {
+				if coqPExprOf(&kids[j]) != kc[j] {
+					c.violation("c25-ctor-mutates-args", "PrefilterAnd/PrefilterOr constructor changed the caller's argument slice", map[string]any{"before": kc[j], "after": coqPExprOf(&kids[j])})
+				}
 			}
 			term := fmt.Sprintf("CCtorP %s %s %s", coqBool(isAnd), coqList(kc), coqPExprOf(&obs))
 			sh.add(c, term, map[string]any{"kind": "ctor-prefilter", "and": isAnd, "children": kids, "result": obs})
@@ -300,35 +315,41 @@ func runC25(c *Ctx) {
 				}
 			}
 			var callNames []string
+			var replay []func(*bs.QueryBuilder)
 			for j := 0; j < nc; j++ {
 				switch c.intn(9) {
 				case 0, 1:
 					f := c.pickField(h)
 					b.Field(f)
+					replay = append(replay, func(x *bs.QueryBuilder) { x.Field(f) })
 					andB(bs.Field(f))
 					calls = append(calls, "KField "+coqS(f))
 					callNames = append(callNames, "Field")
 				case 2:
 					t := c.pickToken(h)
 					b.Token(t)
+					replay = append(replay, func(x *bs.QueryBuilder) { x.Token(t) })
 					andB(bs.Token(t))
 					calls = append(calls, "KToken "+coqS(t))
 					callNames = append(callNames, "Token")
 				case 3:
 					f, t := c.pickField(h), c.pickToken(h)
 					b.FieldToken(f, t)
+					replay = append(replay, func(x *bs.QueryBuilder) { x.FieldToken(f, t) })
 					andB(bs.FieldToken(f, t))
 					calls = append(calls, "KFieldToken "+coqS(f)+" "+coqS(t))
 					callNames = append(callNames, "FieldToken")
 				case 4, 5:
 					e := c.genBExpr(2, h)
 					b.Match(e)
+					replay = append(replay, func(x *bs.QueryBuilder) { x.Match(e) })
 					denB = &e
 					calls = append(calls, "KMatch "+coqBExpr(&e))
 					callNames = append(callNames, "Match")
 				case 6:
 					f, p := c.pickField(h), patternPool[c.intn(len(patternPool))]
 					b.FieldRegex(f, p)
+					replay = append(replay, func(x *bs.QueryBuilder) { x.FieldRegex(f, p) })
 					andR(bs.FieldRegex(f, p))
 					calls = append(calls, "KFieldRegex "+coqS(f)+" "+coqS(p))
 					callNames = append(callNames, "FieldRegex")
@@ -338,19 +359,57 @@ func runC25(c *Ctx) {
 						e = c.genRExpr(2, h)
 					}
 					b.MatchRegex(e)
+					replay = append(replay, func(x *bs.QueryBuilder) { x.MatchRegex(e) })
 					denR = &e
 					calls = append(calls, "KMatchRegex "+coqRExpr(&e))
 					callNames = append(callNames, "MatchRegex")
 				default:
 					e, ec := c.genPExpr(2, []string{"n"}, near)
 					b.MatchPrefilter(e)
+					replay = append(replay, func(x *bs.QueryBuilder) { x.MatchPrefilter(e) })
 					denP = &e
 					calls = append(calls, "KMatchPrefilter "+ec)
 					callNames = append(callNames, "MatchPrefilter")
 				}
 			}
 			q := b.Build()
-			term := fmt.Sprintf("CBuild %s %s", coqList(calls), coqQueryOf(q))
+			snapshot := coqQueryOf(q)
+			// a second builder over the same caller-owned expressions, with further conditions chained on:
+			// the first query must not change (no shared backing arrays)
+			{
+				b2 := bs.NewQuery()
+				for _, f := range replay {
+					f(b2)
+				}
+				b2.Token("zz-other").Field("zz.other").FieldRegex("zz", "other")
+				q2 := b2.Build()
+				b3 := bs.NewQuery()
+				for _, f := range replay {
+					f(b3)
+				}
+				b3.Token("yy-third").FieldRegex("yy", "third")
+				q3 := b3.Build()
+				_ = q3
+				if coqQueryOf(q) != snapshot {
+					c.violation("c25-builder-aliasing", "a built query changed when the same expressions were used in another builder", map[string]any{"calls": callNames, "before": snapshot, "after": coqQueryOf(q)})
+				}
+				// and the second builder means its own conjunction: q2 = q AND zz-other AND zz.other AND regex
+				want2 := bs.NewQuery()
+				for _, f := range replay {
+					f(want2)
+				}
+				w2 := want2.Build()
+				_ = w2
+				chk := bs.NewQuery()
+				for _, f := range replay {
+					f(chk)
+				}
+				chk.Token("zz-other").Field("zz.other").FieldRegex("zz", "other")
+				if coqQueryOf(chk.Build()) != coqQueryOf(q2) {
+					c.violation("c25-builder-aliasing", "the same builder chain produced two different queries", map[string]any{"calls": callNames})
+				}
+			}
+			term := fmt.Sprintf("CBuild %s %s", coqList(calls), snapshot)
 			desc := map[string]any{"kind": "builder", "calls": callNames, "built": q}
 			sh.add(c, term, desc)
 			c.dist("builder_calls", fmt.Sprint(nc))
